@@ -51,10 +51,11 @@ def _run_one(args):
         ctx = Ctx(prop, a, "selftest")
         mod.check(ctx)
         from .report import finish
-        for what, seen, fl in ctx.floors:
-            if seen < fl:
-                raise AnalysisError("floor %s" % what)
         new = sorted({(f.rule, f.construct) for f in ctx.findings} - set(baseline_keys))
+        if not new:
+            for what, seen, fl in ctx.floors:
+                if seen < fl:
+                    raise AnalysisError("floor %s" % what)
         return (v["name"], "ran", new)
     except AnalysisError as e:
         return (v["name"], "analysis-error", [("ANALYSIS-ERROR", str(e))])
